@@ -41,6 +41,12 @@ pub enum Op {
     OPrev { k: i32 },
     /// walk the whole set forwards and backwards by neighbour steps
     OWalk,
+    /// full observation sweep (lookup of every window key, emptiness; with sweep_mode 1 the only sweeps)
+    OSweep,
+    /// bulk build of a large collection (only on an empty one): n keys key_lo..key_lo+n inserted
+    /// ascending (pat 0), descending (1), or lower half ascending then upper half descending (2);
+    /// structure and contents are checked once at the end, not per insertion
+    OBulk { n: i32, pat: u8 },
 
     // ---- segment world -------------------------------------------------
     SIns { a: i64, b: i64, exp: i32 },
@@ -75,6 +81,8 @@ impl Op {
             Op::ONext { .. } => "ONext",
             Op::OPrev { .. } => "OPrev",
             Op::OWalk => "OWalk",
+            Op::OSweep => "OSweep",
+            Op::OBulk { .. } => "OBulk",
             Op::SIns { .. } => "SIns",
             Op::SQuery { .. } => "SQuery",
             Op::SClear { .. } => "SClear",
@@ -106,6 +114,8 @@ impl Op {
             Op::ONext { k } => format!("ONext {}", k),
             Op::OPrev { k } => format!("OPrev {}", k),
             Op::OWalk => "OWalk".into(),
+            Op::OSweep => "OSweep".into(),
+            Op::OBulk { n, pat } => format!("OBulk {} {}", n, pat),
             Op::SIns { a, b, exp } => format!("SIns {} {} {}", a, b, exp),
             Op::SQuery { a, b, take } => format!("SQuery {} {} {}", a, b, take),
             Op::SClear { restart } => format!("SClear {}", restart),
@@ -145,6 +155,8 @@ impl Op {
             "ONext" => Op::ONext { k: i(0)? },
             "OPrev" => Op::OPrev { k: i(0)? },
             "OWalk" => Op::OWalk,
+            "OSweep" => Op::OSweep,
+            "OBulk" => Op::OBulk { n: i(0)?, pat: i(1)? as u8 },
             "SIns" => Op::SIns { a: n(0)?, b: n(1)?, exp: i(2)? },
             "SQuery" => Op::SQuery { a: n(0)?, b: n(1)?, take: i(2)? },
             "SClear" => Op::SClear { restart: i(0)? },
